@@ -15,7 +15,7 @@ import (
 var c02OffsetFields = map[int][][2]int{
 	0: {{2, 0}}, 1: {{2, 0}}, 2: {{2, 0}}, 3: {{2, 0}}, 4: {{2, 0}}, 5: {{2, 0}}, 6: {{2, 0}}, 7: {{2, 0}}, 8: {{2, 0}},
 	9: {{2, 0}, {8, 1}, {10, 1}}, 10: {{2, 0}, {4, 0}}, 11: {{2, 0}, {4, 1}}, 12: {{2, 0}, {4, 1}, {6, 1}, {8, 1}},
-	13: {{6, 0}}, 14: {{4, 0}}, 15: {{2, 0}}, 16: {{2, 0}}, 17: {{2, 0}, {4, 0}},
+	13: {{6, 0}}, 14: {{4, 0}}, 15: {{2, 0}, {6, 0}}, 16: {{2, 0}}, 17: {{2, 0}, {4, 0}},
 	18: {{2, 0}, {4, 1}}, 19: {{2, 0}, {4, 1}, {6, 1}, {8, 1}}, 20: {{2, 0}, {8, 1}, {10, 1}}, 21: {{2, 0}}, 22: {{2, 0}},
 }
 
